@@ -10,6 +10,7 @@ source order and without duplicates, the effects on `self`:
     p:<name>   assignment to a name that is a property of the class (runs its setter)
     c:<name>   call of self.<name>(...)
     g:<name>   read of self.<name> where <name> is a property (runs its getter)
+    A:<param>  in-place write (op=, [..]=, out=) to a parameter before it is rebound: reaches the caller's array
     x:<name>   self.__dict__.pop("<name>", None): invalidation of a cached_property
 and for every property setter whether its body has the shape
     if value > 0 (or >= 0): <body> else: raise ValueError(...)
@@ -44,9 +45,11 @@ def self_attr_chain(node):
 
 
 class MethodEffects(ast.NodeVisitor):
-    def __init__(self, props):
+    def __init__(self, props, params=()):
         self.props = props
         self.eff = []
+        self.params = set(params)     # parameter names not yet rebound: in-place writes hit the caller's object
+
 
     def add(self, e):
         if e not in self.eff:
@@ -63,11 +66,16 @@ class MethodEffects(ast.NodeVisitor):
                 self.add(("s:" if len(ch) == 1 else "n:") + ".".join(ch))
             # stores into locals (e.g. face[:] = ...) are recorded as local stores: they may alias state
             elif isinstance(t.value, ast.Name):
-                self.add("l:" + t.value.id)
+                self.add(("A:" if t.value.id in self.params else "l:") + t.value.id)
             self.visit(t.slice)
             return
         ch = self_attr_chain(t)
         if ch is None:
+            if isinstance(t, ast.Name):
+                if kind == "a" and t.id in self.params:
+                    self.add("A:" + t.id)        # param op= ...: in place for arrays
+                elif kind == "w":
+                    self.params.discard(t.id)    # rebound: later writes no longer reach the caller's object
             return
         if len(ch) == 1:
             if ch[0] in self.props:
@@ -77,10 +85,30 @@ class MethodEffects(ast.NodeVisitor):
         else:
             self.add("n:" + ".".join(ch))
 
+    ALIASING = {"asarray", "asanyarray", "atleast_1d", "atleast_2d", "atleast_3d", "ascontiguousarray", "ravel", "reshape", "squeeze"}
+
+    def may_alias_param(self, v):
+        """np.asarray(p, ...) & co. return p itself (or a view) when no conversion is needed"""
+        if isinstance(v, ast.Name):
+            return v.id in self.params
+        if isinstance(v, ast.Call):
+            f = v.func
+            if isinstance(f, ast.Attribute) and f.attr in self.ALIASING:
+                if isinstance(f.value, ast.Name) and f.value.id == "np" and v.args and self.may_alias_param(v.args[0]):
+                    return True
+                if self.may_alias_param(f.value):
+                    return True
+        if isinstance(v, ast.Subscript):
+            return self.may_alias_param(v.value)
+        return False
+
     def visit_Assign(self, node):
+        self.visit(node.value)
+        alias = self.may_alias_param(node.value)
         for t in node.targets:
             self.target(t, "w")
-        self.visit(node.value)
+            if alias and isinstance(t, ast.Name):
+                self.params.add(t.id)
 
     def visit_AugAssign(self, node):
         self.target(node.target, "a")
@@ -118,7 +146,7 @@ class MethodEffects(ast.NodeVisitor):
                 if c2 is not None:
                     self.add("a:" + ".".join(c2))
                 elif isinstance(kw.value, ast.Name):
-                    self.add("l:" + kw.value.id)
+                    self.add(("A:" if kw.value.id in self.params else "l:") + kw.value.id)
         self.generic_visit(node)
 
     def visit_Attribute(self, node):
@@ -204,7 +232,7 @@ def collect(repo=REPO):
                 if "abstractmethod" in decs:
                     continue
                 raise TranslationError("unknown decorator %s on %s.%s" % (decs, c, n.name))
-            me = MethodEffects(props)
+            me = MethodEffects(props, [a.arg for a in n.args.args[1:]])
             for s in n.body:
                 me.visit(s)
             rows.append((c, kind, n.name, me.eff))
